@@ -225,6 +225,13 @@ class CallGraph:
             self._scope[func] = self.res.scope_info(func)
         return self._scope[func]
 
+    def _return_nodes(self, fid, fn):
+        c = self.__dict__.setdefault('_retcache', {})
+        if fid not in c:
+            c[fid] = [n for n in walk_no_nested(fn) if isinstance(n, ast.Return) and n.value is not None
+                      and not isinstance(n.value, ast.Constant)]
+        return c[fid]
+
     def funcs_in(self, expr, func):
         """All package functions an expression may evaluate to / contain (lists, dicts, lambdas)."""
         out = set()
@@ -300,11 +307,10 @@ class CallGraph:
                     out.extend(self.resolve(expr.args[0], func, _depth + 1))
                 elif t[0] == 'func':
                     fn = repo.functions[t[1]]
-                    for n in walk_no_nested(fn):
-                        if isinstance(n, ast.Return) and n.value is not None:
-                            for r in self.resolve(n.value, fn, _depth + 1):
-                                if r[0] == 'func':
-                                    out.append(r)
+                    for n in self._return_nodes(t[1], fn):
+                        for r in self.resolve(n.value, fn, _depth + 1):
+                            if r[0] == 'func':
+                                out.append(r)
             return out
         if isinstance(expr, ast.Lambda):
             return list(self.funcs_in(expr.body, func))
